@@ -286,6 +286,9 @@ class IntegratorProxy(object):
     def __bool__(self):
         return True
 
+    # isinstance(system.integrator, <integrator class>) holds as it does without the sensor
+    __class__ = property(lambda self: type(object.__getattribute__(self, "_real")))
+
 
 class LoggingList(list):
     def __init__(self, log, *a):
